@@ -18,10 +18,8 @@ RULE = (
     "{scipy, minuit} x backend x do_grad x do_stitch (all flag combinations of the shard run on every "
     "case; numpy+minuit additionally with strategy=0, the MIGRAD strategy pyhf selects when gradients are used). Oracles whenever a fit returns: inside bounds; fixed parameters and fixed POI at the supplied "
     "value; reported objective == 2*reference NLL at the returned point; minuit uncertainties 0 for fixed "
-    "parameters; objective <= closed-form optimum / best objective among 60 random feasible points, "
-    "perturbations, a stand-alone HESSE (iminuit strategy 2 on the reference objective) at every point minuit "
-    "reports as a success, whose EDM must respect MIGRAD's own validity limit 10 x 0.002 x tolerance (x2.5 margin; "
-    "points within 0.1% of a bound excluded), an independent L-BFGS-B polish of the reference objective and the other configurations (+ tolerance); closed-form families must succeed. "
+    "parameters; a minuit success is backed by a MINUIT state (return_result_obj) that MINUIT itself calls valid; objective <= closed-form optimum / best objective among 60 random feasible points, "
+    "perturbations, an independent L-BFGS-B polish of the reference objective and the other configurations (+ tolerance); closed-form families must succeed. "
     "Non-trivial: >=1 free nuisance, optimum on a bound, or non-empty fixed mask; distinct by (model "
     "signature, mask, data, optimizer, backend)."
 )
@@ -29,8 +27,9 @@ ASSUMPTIONS = [
     "tol_opt on 2NLL: 2e-4 scipy (default SLSQP ftol 1e-6), 2e-3 minuit (tolerance 0.1); optimality can "
     "only be refuted ('any other feasible point' is sampled)",
     "reference NLL from vlib/refmodel.py, closed forms from vlib/refstats.py",
-    "the HESSE criterion separates 'MIGRAD stopped where its own convergence criterion holds' (recorded optimiser "
-    "limitation) from 'success reported although the criterion fails' (violation)",
+    "a stand-alone HESSE (iminuit strategy 2, reference objective) at every minuit success is recorded as a metric "
+    "(max EDM / limit), not as a verdict: on nearly degenerate models it exceeds MINUIT's own estimate by large "
+    "factors on the unchanged tree",
 ]
 
 
@@ -281,6 +280,8 @@ def run_case(case, ctx):
                         return True
             return False
 
+        edm_of = {}
+
         def classify(default_name, do_stitch, do_grad, target, x, val, eff_fixed):
             if early_stop(do_stitch, do_grad, target):
                 return EARLY
@@ -297,6 +298,7 @@ def run_case(case, ctx):
                 kw["strategy"] = strat
             if case["optimizer"] == "minuit":
                 kw["return_uncertainties"] = True
+                kw["return_result_obj"] = True
             tag = f"stitch{int(do_stitch)}_grad{int(do_grad)}" + ("" if strat is None else f"_strategy{strat}")
             all_fixed = all(f or (is_fp and i == pi) for i, f in enumerate(fixed))
             if do_stitch and all_fixed:
@@ -346,7 +348,20 @@ def run_case(case, ctx):
                     raise
                 ctx.fail(f"{sig}/raises/{type(exc).__name__}@{w[0]}:{w[1]}/{tag}", message=str(exc)[:200])
                 continue
-            pars_t, val = r
+            if case["optimizer"] == "minuit":
+                pars_t, val, res_obj = r
+                # the success flag must be backed by MINUIT's own final state (after the HESSE call pyhf makes)
+                m_ = getattr(res_obj, "minuit", None)
+                if m_ is not None:
+                    ctx.count("minuit_final_state_inspected", 1)
+                    if not bool(m_.valid):
+                        ctx.fail(f"C05/minuit_reports_success_although_its_final_state_is_invalid/{tag}",
+                                 edm=float(m_.fmin.edm), edm_goal=float(m_.fmin.edm_goal),
+                                 above_max_edm=bool(m_.fmin.is_above_max_edm), reported=float(backends.tonp(val)))
+                else:
+                    ctx.fail(f"C05/minuit_result_object_without_minuit_state/{tag}")
+            else:
+                pars_t, val = r
             arr = backends.tonp(pars_t).astype(float)
             if case["optimizer"] == "minuit":
                 if arr.ndim != 2 or arr.shape[1] != 2:
@@ -424,16 +439,15 @@ def run_case(case, ctx):
                             best_other, arg = fy, y
                 except Exception:  # noqa: BLE001 - the polish is an aid, never a verdict
                     pass
-            # MIGRAD's own convergence criterion, evaluated independently: HESSE (strategy 2) on the reference
-            # objective at the returned point; a success flag requires EDM <= 10 x goal (goal = 0.002*tol*errordef)
+            # MIGRAD's convergence measure evaluated independently (HESSE, strategy 2, on the reference objective at
+            # the returned point): recorded as a metric only - with nearly degenerate directions the EDM of an
+            # accurate Hessian exceeds MINUIT's own strategy-0/1 estimate by large factors on the unchanged tree
+            edm_of[tag] = None
             if case["optimizer"] == "minuit" and free and math.isfinite(f_ref):
-                edm = _hesse_edm(nll2, x, free, bounds)
-                if edm is not None:
-                    ctx.err("minuit_edm_over_limit", edm / (EDM_MARGIN * 10 * EDM_GOAL))
+                edm_of[tag] = _hesse_edm(nll2, x, free, bounds)
+                if edm_of[tag] is not None:
+                    ctx.err("minuit_edm_over_limit", edm_of[tag] / (EDM_MARGIN * 10 * EDM_GOAL))
                     ctx.count("minuit_success_points_checked_with_independent_hesse", 1)
-                    if edm > EDM_MARGIN * 10 * EDM_GOAL:
-                        ctx.fail(f"C05/minuit_reports_success_at_point_failing_its_convergence_criterion/{tag}",
-                                 edm=edm, limit=10 * EDM_GOAL, margin=EDM_MARGIN, point=x, reported=val)
             if best_other < val - tol_opt:
                 name = classify(f"{sig}/better_feasible_point_exists/{case['family']}/{tag}", do_stitch, do_grad,
                                 best_other, x, val, eff_fixed)
